@@ -310,6 +310,25 @@ roundtrip(int t, uint64_t v)
             vh_fail("decode-buffer-at-offset", key, "octets=%s at offset %zu of %zu: rc=%d value=%016" PRIx64 " offset=%zu",
                     vh_hex(ref, (size_t)rn), lead, tot, rc, got, b.offset);
     }
+    /* a buffer whose fill mark lies inside the encoding (set up by hand over memory that holds more than the mark
+     * says, or left there by an earlier encode into the same object): the bound of the buffer decoder is the
+     * buffer's memory - the suite itself decodes from buffers with fill mark zero - so the value comes back */
+    if (rn >= 2) {
+        size_t lead = (size_t)((v >> 2) % 4), tot = lead + (size_t)rn;
+        size_t mark = lead + 1 + (size_t)((v ^ (v >> 9)) % (uint64_t)(rn - 1));
+        if (blk2[tot] == NULL)
+            blk2[tot] = vh_arena(tot);
+        memset(blk2[tot], 0x80, tot);
+        memcpy(blk2[tot] + lead, ref, (size_t)rn);
+        if (byte_buffer_set(&b, blk2[tot], tot, mark, lead) != 0)
+            vh_broken("byte_buffer_set refused size=%zu used=%zu offset=%zu", tot, mark, lead);
+        got = 0;
+        rc = api_decode(t, &b, &got);
+        VH_COUNT("decodes from a buffer whose fill mark lies inside the encoding");
+        if (rc != rn || got != v || b.offset != lead + (size_t)rn)
+            vh_fail("decode-buffer-mark-inside", key, "octets=%s at offset %zu, fill mark %zu, size %zu: rc=%d value=%016" PRIx64 " offset=%zu",
+                    vh_hex(ref, (size_t)rn), lead, mark, tot, rc, got, b.offset);
+    }
     /* decoding in place: the result variable is the memory the encoding lies in (a cell that first holds the
      * received octets and then the number); nothing in the prototypes forbids it */
     {
@@ -663,4 +682,5 @@ harness_run(void)
     for (size_t i = 0; i < sizeof req / sizeof req[0]; i++)
         vh_require(req[i]);
     vh_require("source interrupted once while a varint is read");
+    vh_require("decodes from a buffer whose fill mark lies inside the encoding");
 }
